@@ -60,7 +60,7 @@ def isAlnumU (c : Nat) : Bool := isLetter c || isDigit c
 /-- `re.sub("[^A-Za-z0-9_]", "", s)` -/
 def sanitise (s : Str) : Str := s.filter isAlnumU
 
-def digitsOfNat (n : Nat) : Str := (toString n).toList.map Char.toNat
+def digitsOfNat (n : Nat) : Str := (Nat.toDigits 10 n).map Char.toNat
 
 /-! ### tokens -/
 
@@ -110,30 +110,35 @@ def transpileToken (env : TEnv) (t : Token) : Except TErr (List PyStmt) :=
 def lambdaParams : List (String × Option PyExpr) :=
   [("arg_stack", none), ("self", none), ("arity", some (.unary "USub" (.cint 1))), ("ctx", some .cnone)]
 
+/-- first statements of a lambda body: the stack selection, then one push on each bookkeeping list -/
+def lambdaPrologue (ar : PyExpr) : List PyStmt :=
+  [ .ifS (.compare (nm "arity") [(.ne, .unary "USub" (.cint 1))])
+      [assign1 stackE (.call (nm "wrapify") [nm "arg_stack", nm "arity"] kwCtx)]
+      [.ifS (.compare (.cstr "stored_arity") [(.in_, callN "dir" [nm "self"])])
+         [assign1 stackE (callN "wrapify" [nm "arg_stack", .attr (nm "self") "stored_arity", ctxE])]
+         [assign1 stackE (callN "wrapify" [nm "arg_stack", ar, ctxE])]],
+    assign1 (nm "this") (nm "self"),
+    ctxCall "function_stack" "append" [nm "this"],
+    ctxCall "context_values" "append"
+      [.ifExp (.compare (callN "len" [stackE]) [(.ne, .cint 1)])
+         (callN "list" [callN "deep_copy" [stackE]])
+         (callN "deep_copy" [.subscript stackE (.cint 0)])],
+    ctxCall "inputs" "append"
+      [.list [.subscript (callN "list" [callN "deep_copy" [stackE]]) (.slice none none (some (.unary "USub" (.cint 1)))), .cint 0]],
+    ctxCall "stacks" "append" [stackE] ]
+
+/-- last statements of a lambda body: the result, one pop on each list, return -/
+def lambdaEpilogue : List PyStmt :=
+  [ assign1 (nm "res") (.list [pop1pos]),
+    ctxCall "context_values" "pop" [],
+    ctxCall "inputs" "pop" [],
+    ctxCall "stacks" "pop" [],
+    ctxCall "function_stack" "pop" [],
+    .ret (some (nm "res")) ]
+
 /-- `transpile_lambda`: `id` = the identifier characters, `ar` = `str(lam.arity)` or `ctx.default_arity` -/
 def lambdaTemplate (id : Str) (ar : PyExpr) (body : List PyStmt) : List PyStmt :=
-  [ .defP "_lambda_" id lambdaParams
-      ([ .ifS (.compare (nm "arity") [(.ne, .unary "USub" (.cint 1))])
-            [assign1 stackE (.call (nm "wrapify") [nm "arg_stack", nm "arity"] kwCtx)]
-            [.ifS (.compare (.cstr "stored_arity") [(.in_, callN "dir" [nm "self"])])
-               [assign1 stackE (callN "wrapify" [nm "arg_stack", .attr (nm "self") "stored_arity", ctxE])]
-               [assign1 stackE (callN "wrapify" [nm "arg_stack", ar, ctxE])]],
-         assign1 (nm "this") (nm "self"),
-         ctxCall "function_stack" "append" [nm "this"],
-         ctxCall "context_values" "append"
-           [.ifExp (.compare (callN "len" [stackE]) [(.ne, .cint 1)])
-              (callN "list" [callN "deep_copy" [stackE]])
-              (callN "deep_copy" [.subscript stackE (.cint 0)])],
-         ctxCall "inputs" "append"
-           [.list [.subscript (callN "list" [callN "deep_copy" [stackE]]) (.slice none none (some (.unary "USub" (.cint 1)))), .cint 0]],
-         ctxCall "stacks" "append" [stackE] ]
-       ++ body ++
-       [ assign1 (nm "res") (.list [pop1pos]),
-         ctxCall "context_values" "pop" [],
-         ctxCall "inputs" "pop" [],
-         ctxCall "stacks" "pop" [],
-         ctxCall "function_stack" "pop" [],
-         .ret (some (nm "res")) ]),
+  [ .defP "_lambda_" id lambdaParams (lambdaPrologue ar ++ body ++ lambdaEpilogue),
     assign1 (.attr (.pname "_lambda_" id) "arity") ar,
     push (.pname "_lambda_" id) ]
 
@@ -169,27 +174,33 @@ def paramStmt (p : Str) : PyStmt :=
     .augAssign (nm "parameters") .add (.call (nm "wrapify") [nm "arg_stack", pop1kw (nm "arg_stack")] kwCtx)
   else assign1 (.pname "VAR_" (sanitise p)) (pop1kw (nm "arg_stack"))
 
+def fnDefPrologue (name : Str) (params : List Str) : List PyStmt :=
+  [ assign1 (nm "parameters") (.list []) ] ++ params.map paramStmt ++
+  [ assign1 stackE (.subscript (nm "parameters") (.slice none none none)),
+    ctxCall "context_values" "append" [.subscript (nm "parameters") (.slice none none none)],
+    ctxCall "stacks" "append" [stackE],
+    ctxCall "inputs" "append" [.list [.subscript (nm "parameters") (.slice none none (some (.unary "USub" (.cint 1)))), .cint 0]],
+    assign1 (nm "this") (.pname "VAR_" (sanitise name)) ]
+
+def fnDefEpilogue : List PyStmt :=
+  [ ctxCall "context_values" "pop" [],
+    ctxCall "inputs" "pop" [],
+    ctxCall "stacks" "pop" [],
+    .ret (some stackE) ]
+
 def fnDefTemplate (name : Str) (params : List Str) (body : List PyStmt) : List PyStmt :=
-  [ .defP "VAR_" (sanitise name) lambdaParams
-      ([ assign1 (nm "parameters") (.list []) ] ++ params.map paramStmt ++
-       [ assign1 stackE (.subscript (nm "parameters") (.slice none none none)),
-         ctxCall "context_values" "append" [.subscript (nm "parameters") (.slice none none none)],
-         ctxCall "stacks" "append" [stackE],
-         ctxCall "inputs" "append" [.list [.subscript (nm "parameters") (.slice none none (some (.unary "USub" (.cint 1)))), .cint 0]],
-         assign1 (nm "this") (.pname "VAR_" (sanitise name)) ] ++ body ++
-       [ ctxCall "context_values" "pop" [],
-         ctxCall "inputs" "pop" [],
-         ctxCall "stacks" "pop" [],
-         .ret (some stackE) ]) ]
+  [ .defP "VAR_" (sanitise name) lambdaParams (fnDefPrologue name params ++ body ++ fnDefEpilogue) ]
 
 def fnCallTemplate (name : Str) : List PyStmt :=
   [ .augAssign stackE .add (.call (.pname "VAR_" (sanitise name)) [stackE] [("self", .cnone), ("ctx", ctxE)]) ]
 
+def listItemEpilogue : List PyStmt :=
+  [ .ifS (.compare (callN "len" [stackE]) [(.eq, .cint 0)]) [.ret none] [],
+    .ret (some pop1kw) ]
+
 def listItemTemplate (item : List PyStmt) : List PyStmt :=
   [ .defS "list_item" [("s", none), ("ctx", none)]
-      ([ assign1 stackE (callN "list" [callN "deep_copy" [nm "s"]]) ] ++ item ++
-       [ .ifS (.compare (callN "len" [stackE]) [(.eq, .cint 0)]) [.ret none] [],
-         .ret (some pop1kw) ]),
+      ([ assign1 stackE (callN "list" [callN "deep_copy" [nm "s"]]) ] ++ item ++ listItemEpilogue),
     assign1 (nm "f") (callN "list_item" [stackE, ctxE]),
     .ifS (.compare (nm "f") [(.isNot, .cnone)]) [.expr (.call (.attr (nm "temp_list") "append") [nm "f"] [])] [] ]
 
